@@ -371,13 +371,18 @@ def suite(tier, seed):
         if os.path.exists(cp):
             return json.load(open(cp))
         t0 = time.time()
-        build_harness()
-        res = {"engine": "config", "mc": mc(tier), "tier": tier, "seed": seed, "violations": [], "tool_errors": [], "runs": 0,
+        harness_ok = True
+        try:
+            build_harness()
+        except ToolError as e:
+            harness_ok = False
+            log("configuration suite: harness does not build against this tree - command-line leg only:", str(e)[-400:])
+        res = {"engine": "config", "harness_built": harness_ok, "mc": mc(tier), "tier": tier, "seed": seed, "violations": [], "tool_errors": [], "runs": 0,
                "traces_validated": 0, "samples": [], "nontrivial": {}, "verdicts": {}, "by_kind": {}}
-        cases = make_cases(tier, seed)
+        cases = make_cases(tier, seed) if harness_ok else []
         byid = {c["id"]: c for c in cases}
         k = NCPU * 2
-        shards = [("c%s%d_%d_%d" % (tier[0], seed, os.getpid(), s), cases[s::k]) for s in range(k)]
+        shards = [("c%s%d_%d_%d" % (tier[0], seed, os.getpid(), s), cases[s::k]) for s in range(k) if cases[s::k]]
         with cf.ThreadPoolExecutor(NCPU) as ex:
             rs = list(ex.map(run_shard, shards))
         seen = {p: set() for p in PROPS}
